@@ -1,8 +1,116 @@
+import Afkak.Assign
+import Afkak.Monitor.C15
 import Driver.Util
-/-! Driver for the `Assign` component (stub until the component is built). -/
-namespace Driver.Assign
+/-!
+Driver for the `Assign` component (exe `model_assign`).
 
-def step (st : Unit) (_line : String) : Unit × List String := (st, ["bad-op"])
+Tokens (no spaces inside a token):
+* string  : code points in decimal joined by `.`; the empty string is `~`
+* ints    : decimals joined by `,`; the empty list is the empty text
+* map     : `topic=ints` entries joined by `|`; the empty map is `-`
+* members : `id:topic,topic,…` entries joined by `;`; no members is `-`
+* obs     : `id>map` entries joined by `;`; empty is `-`
+* encs    : `id:hex` entries joined by `;`; empty is `-`
+
+Requests: `rr members map`, `gen members map`, `encode version map`, `decode hex`,
+`mon members map obs`, `mon-own map map`, `mon-same obs obs`.
+-/
+namespace Driver.Assign
+open Afkak.Assign Afkak.Monitor.C15 Driver
+
+def parseStr (s : String) : Option Str :=
+  if s == "~" then some [] else (s.splitOn ".").mapM (·.toNat?)
+
+def showStr (s : Str) : String :=
+  if s.isEmpty then "~" else ".".intercalate (s.map toString)
+
+def parseIntList (s : String) : Option (List Int) :=
+  if s == "" then some [] else (s.splitOn ",").mapM (·.toInt?)
+
+def showIntList (l : List Int) : String := ",".intercalate (l.map toString)
+
+def parseMap (s : String) : Option (Dict Str (List Int)) :=
+  if s == "-" then some [] else
+  (s.splitOn "|").mapM fun e =>
+    match e.splitOn "=" with
+    | [t, ps] => do some ((← parseStr t), (← parseIntList ps))
+    | _ => none
+
+def showMap (m : Dict Str (List Int)) : String :=
+  if m.isEmpty then "-" else "|".intercalate (m.map fun e => showStr e.1 ++ "=" ++ showIntList e.2)
+
+def parseMembers (s : String) : Option (List Member) :=
+  if s == "-" then some [] else
+  (s.splitOn ";").mapM fun e =>
+    match e.splitOn ":" with
+    | [id, ts] => do
+      let id ← parseStr id
+      let ts ← if ts == "" then some [] else (ts.splitOn ",").mapM parseStr
+      some (id, ts)
+    | _ => none
+
+def parseObs (s : String) : Option Obs :=
+  if s == "-" then some [] else
+  (s.splitOn ";").mapM fun e =>
+    match e.splitOn ">" with
+    | [id, m] => do some ((← parseStr id), (← parseMap m))
+    | _ => none
+
+def showObs (o : Obs) : String :=
+  if o.isEmpty then "-" else ";".intercalate (o.map fun e => showStr e.1 ++ ">" ++ showMap e.2)
+
+def showEncs (l : List (Str × Bytes)) : String :=
+  if l.isEmpty then "-" else ";".intercalate (l.map fun e => showStr e.1 ++ ":" ++ toHex e.2)
+
+def showErr : Err → String
+  | .assertion => "error AssertionError"
+  | .need ts => "need " ++ (if ts.isEmpty then "-" else ",".intercalate (ts.map showStr))
+  | .stopIteration => "error StopIteration"
+  | .keyError => "error KeyError"
+  | .diverges => "error diverges"
+  | .structError => "error error"
+  | .unicodeEncode => "error UnicodeEncodeError"
+  | .unicodeDecode => "error UnicodeDecodeError"
+  | .bufferUnderflow => "error BufferUnderflowError"
+  | .attributeError => "error AttributeError"
+  | .protocolError => "error ProtocolError"
+
+def okFail (b : Bool) : String := if b then "ok" else "fail"
+def yesNo (b : Bool) : String := if b then "yes" else "no"
+
+def step (st : Unit) (line : String) : Unit × List String :=
+  match words line with
+  | ["rr", ms, tp] => match parseMembers ms, parseMap tp with
+    | some ms, some tp => match roundRobin (memberMetadata ms) tp with
+      | .ok asg => (st, ["asg " ++ showObs asg])
+      | .error e => (st, [showErr e])
+    | _, _ => (st, ["bad-op"])
+  | ["gen", ms, tp] => match parseMembers ms, parseMap tp with
+    | some ms, some tp => match generateAssignments ms tp with
+      | .ok encs => (st, ["enc " ++ showEncs encs])
+      | .error e => (st, [showErr e])
+    | _, _ => (st, ["bad-op"])
+  | ["encode", v, m] => match v.toInt?, parseMap m with
+    | some v, some m => match encodeMemberAssignment v m [] with
+      | .ok b => (st, ["bytes " ++ toHex b])
+      | .error e => (st, [showErr e])
+    | _, _ => (st, ["bad-op"])
+  | ["decode", hex] => match parseHex hex with
+    | some b => match decodeAssignment b with
+      | .ok m => (st, ["map " ++ showMap m])
+      | .error e => (st, [showErr e])
+    | none => (st, ["bad-op"])
+  | ["mon", ms, tp, obs] => match parseMembers ms, parseMap tp, parseObs obs with
+    | some ms, some tp, some obs =>
+      (st, [s!"answers={okFail (answersAll ms obs)} once={okFail (exactlyOnce ms tp obs)} else={okFail (nothingElse ms tp obs)} sub={okFail (onlySubscribed ms obs)} bal={okFail (balanced ms obs)} wf={yesNo (wellFormed ms tp)} ident={yesNo (identicalSubs ms)}"])
+    | _, _, _ => (st, ["bad-op"])
+  | ["mon-own", a, d] => match parseMap a, parseMap d with
+    | some a, some d => (st, [okFail (decodesOwn a d)])
+    | _, _ => (st, ["bad-op"])
+  | ["mon-same", o1, o2] => match parseObs o1, parseObs o2 with
+    | some o1, some o2 => (st, [okFail (sameAssignment o1 o2)])
+    | _, _ => (st, ["bad-op"])
+  | _ => (st, ["bad-op"])
 
 end Driver.Assign
 
